@@ -653,6 +653,11 @@ func maybeAugmentTaprootResolvers(chanType channeldb.ChannelType,
 			if r.htlcResolution.ClaimOutpoint ==
 				htlcRes.ClaimOutpoint {
 
+				// The logged resolution was written when the
+				// channel closed, before the preimage was
+				// known. Keep the preimage the resolver
+				// persisted itself.
+				htlcRes.Preimage = r.htlcResolution.Preimage
 				r.htlcResolution = htlcRes
 			}
 		}
@@ -664,6 +669,11 @@ func maybeAugmentTaprootResolvers(chanType channeldb.ChannelType,
 			if r.htlcResolution.ClaimOutpoint ==
 				htlcRes.ClaimOutpoint {
 
+				// The logged resolution was written when the
+				// channel closed, before the preimage was
+				// known. Keep the preimage the resolver
+				// persisted itself.
+				htlcRes.Preimage = r.htlcResolution.Preimage
 				r.htlcResolution = htlcRes
 			}
 		}
